@@ -21,7 +21,7 @@ def gen_cases(prop, seed, tier, budget=1.0):
             cases.append(f"r{i} ROPE " + ';'.join(ops))
         big = 2 if tier == 'quick' else 12
         for i in range(big):   # long histories: carries through many chunks, big ropes
-            ops = gen_rope.rope_history(rng, 1500 if tier == 'quick' else 6000, nv, dist, maxinit=rng.choice([40, 300]), reads=False)
+            ops = gen_rope.rope_history(rng, 1500 if tier == 'quick' else 6000, nv, dist, maxinit=[300, 700, 40, 3000][i % 4] if tier != 'quick' else [300, 700][i % 2], reads=False)
             cases.append(f"R{i} ROPE " + ';'.join(ops + ['len', 'into']))
     else:
         n, nops = (500, 40) if tier == 'quick' else (12000, 60)
